@@ -454,6 +454,15 @@ pub fn byref_cfg_family(s: &str) -> Vec<(String, String, String)> {
         hdr().ignore_with_ctx(ja.clone().configure(|c, ctx: &char| c.seq(*ctx)).repeated().to_slice().then(any().repeated().collect::<String>())),
         acc
     );
+    // just(placeholder).configure(seq): the configured sequence replaces the placeholder, also when it is EMPTY or longer
+    {
+        type ES<'a> = extra::Full<Rich<'a, char>, (), String>;
+        for seq in ["", "a", "ab", "ba"] {
+            let cfgd = just::<_, &str, ES>(String::from("b")).configure(|c, ctx: &String| c.seq(ctx.clone())).to_slice().with_ctx(seq.to_string()).then(rest());
+            let stat = just::<_, &str, E0>(seq.to_string()).to_slice().then(rest());
+            both!(format!("just(\"b\").configure(seq = {:?}) vs just({:?})", seq, seq), cfgd, stat, acc);
+        }
+    }
     let ra = just::<_, &str, EP>('a').repeated();
     both!(
         "(&repeated).configure(bounds from ctx) vs repeated.configure".to_string(),
